@@ -876,10 +876,19 @@ def run_resample(ctx, op, r, fail):
         fail(f"{what}: n is {g.mesh.n}")
         return
 
-    def skip(j, q):
-        return any(ctx.ambiguous(a, q[a]) for a in range(ctx.ndim))
-
-    same_values(ctx, g.array, g.valid, g.mesh, lambda q: list(map(float, q)), fail, what, skip=None if ctx.exact else skip)
+    # exact lookup only when the target cell is dyadic too (np.linspace of the target centres is then exact);
+    # otherwise a target centre within tolerance of a source face may fall to either neighbour
+    dyadic = ctx.exact and all(((ctx.hi[a] - ctx.lo[a]) / n[a]).denominator & (((ctx.hi[a] - ctx.lo[a]) / n[a]).denominator - 1) == 0
+                               for a in range(ctx.ndim))
+    r["dyadic"] = dyadic
+    amb = {}
+    if not dyadic:
+        for j in itertools.product(*[range(int(k)) for k in g.mesh.n]):
+            q = g.mesh.index2point(j)
+            amb[j] = any(ctx.ambiguous(a, q[a], force=True) for a in range(ctx.ndim))
+    r["amb"] = amb
+    same_values(ctx, g.array, g.valid, g.mesh, lambda q: list(map(float, q)), fail, what,
+                skip=None if dyadic else (lambda j, q: amb[j]))
     if list(n) == ctx.n and not (np.array_equal(g.array, f.array) and np.array_equal(g.valid, f.valid)):
         fail(f"{what}: resampling to the same cell counts changed the field")
 
@@ -1091,9 +1100,22 @@ def compare(case, obs, rs):
             if ax is not None and arg not in ("bad3", "badstr"):
                 xs = [ctx.mesh.region.center[ax]] if arg is None else ([arg["point"]] if "point" in arg else list(arg["range"]))
             amb = ax is not None and any(ctx.ambiguous(ax, x) for x in xs)
-            # near the region boundary the accept/reject decision itself is rounding sensitive only if not float-equal: generated clear
+            is_range = isinstance(arg, dict) and "range" in arg
+            # a subregion face within tolerance of (but not exactly on) an outer face of a range selection: the clipped
+            # subregion is degenerate in exact arithmetic; the model's verdict there is not binding
+            near_sub = False
+            if not ctx.exact and is_range and ax is not None and case.get("subs") and "ok" in resp[0]:
+                k1, k2 = resp[0]["ok"]["k"]
+                outer = {k1, k2 + 1} | ({k1 - 1, k1 + 1, k2, k2 + 2} if amb else set())
+                for sname, sa, sb in case["subs"]:
+                    for v in (sa[ax], sb[ax]):
+                        q = (FR(v) - ctx.lo[ax]) / ctx.c[ax]
+                        if round(q) in outer and abs(q - round(q)) <= Fraction(1, 10**6):
+                            near_sub = True
             for key, rp in zip(("conv", "mesh", "field"), resp):
                 if r[key][0] != okerr(rp):
+                    if near_sub and key != "conv" and r[key][0] == "ok":
+                        continue
                     dis.append(f"{name}: {key} impl {r[key][0]} ({r[key][1] if r[key][0] == 'err' else ''}) vs model {okerr(rp)}"
                                + (" [range-selection-next-to-subregion-face]" if (r[key][0] == "err" and "Subregion" in str(r[key][1]) and case.get("subs")) else ""))
             if len(dis) > d0 or r["conv"][0] != "ok":
@@ -1113,9 +1135,12 @@ def compare(case, obs, rs):
                 for x, y in zip(ic, mc["c"]):
                     if (FR(x) != F(y)) if ctx.exact else not core.close(x, y, rel=2**-40, scale=float(abs(ctx.lo[ax]) + abs(ctx.hi[ax]))):
                         dis.append(f"{name}: selected centre impl {float(x)!r} vs model {y}")
-            loose = (ax,) if (amb and mc["kind"] == "range") else ()
-            if r["mesh"][0] == "ok":
-                cmp_mesh(ctx, name + " Mesh.sel", r["mesh"][1], resp[1]["ok"], dis, loose_axes=loose)
+            loose = (ax,) if (amb and is_range) else ()
+            subs_ok = not near_sub and (same_idx or is_range)
+            if r["mesh"][0] == "ok" and "ok" in resp[1]:
+                cmp_mesh(ctx, name + " Mesh.sel", r["mesh"][1], resp[1]["ok"], dis, loose_axes=loose, check_subs=subs_ok)
+            if r["field"][0] != "ok" or "ok" not in resp[2]:
+                continue
             g = r["field"][1]
             mf = resp[2]["ok"]
             if isinstance(g, np.ndarray):
@@ -1127,7 +1152,7 @@ def compare(case, obs, rs):
                 if "field" not in mf:
                     dis.append(f"{name}: impl returned a field, model a bare array")
                     continue
-                if cmp_mesh(ctx, name + " Field.sel mesh", g.mesh, mf["field"]["mesh"], dis, loose_axes=loose) and same_idx:
+                if cmp_mesh(ctx, name + " Field.sel mesh", g.mesh, mf["field"]["mesh"], dis, loose_axes=loose, check_subs=subs_ok) and same_idx:
                     cmp_field_data(name, g, mf["field"], dis)
         elif kind in ("getname", "getregion"):
             name += f"({op.get('name') or [op['p1'], op['p2']]})"
@@ -1184,11 +1209,8 @@ def compare(case, obs, rs):
                 g = r["field"][1]
                 if cmp_mesh(ctx, name + " mesh", g.mesh, resp[0]["ok"]["mesh"], dis):
                     only = None
-                    if not ctx.exact:
-                        only = []
-                        for j in itertools.product(*[range(int(k)) for k in g.mesh.n]):
-                            q = g.mesh.index2point(j)
-                            only.append(not any(ctx.ambiguous(a, q[a]) for a in range(ctx.ndim)))
+                    if not r.get("dyadic"):
+                        only = [not r["amb"][j] for j in itertools.product(*[range(int(k)) for k in g.mesh.n])]
                     cmp_field_data(name, g, resp[0]["ok"], dis, only=only)
     return dis
 
